@@ -1,30 +1,41 @@
 #!/usr/bin/env python3
-"""Apply every seeded change to /repo in turn, run the quick checks of all
-claimed properties (or the given ones), undo, and record which checks fired."""
-import json,os,subprocess,sys,glob
+"""Apply every seeded change to a scratch copy of /repo (outside /repo and
+/verif, removed afterwards), run the quick checks of all claimed properties
+(or the given ones) against that copy, and record which checks fired."""
+import json,os,subprocess,sys,glob,tempfile,shutil
+from concurrent.futures import ThreadPoolExecutor
 props=sys.argv[1:] or [c['property_id'] for c in json.load(open('/verif/MANIFEST.json'))['checks']]
 only=os.environ.get('SEEDS')
-res={}
-for d in sorted(glob.glob('/verif/seeded/*/')):
+env=dict(os.environ,GOFLAGS='-mod=mod',GOPROXY='off',GOSUMDB='off',GOTOOLCHAIN='local')
+def one(d):
     name=os.path.basename(d.rstrip('/'))
-    if only and name not in only.split(','): continue
-    if subprocess.run(['git','-C','/repo','status','--porcelain'],capture_output=True,text=True).stdout.strip():
-        sys.exit('/repo not clean')
-    if subprocess.run(['git','-C','/repo','apply',d+'patch.diff']).returncode!=0:
-        res[name]={'error':'patch does not apply'}; continue
-    fired={}
+    T=tempfile.mkdtemp(prefix='seedmx.')
     try:
+        subprocess.run(['rsync','-a','--exclude','.git','/repo/',T+'/repo/'],check=True)
+        if subprocess.run(['patch','-s','-p1','-i',d+'patch.diff'],cwd=T+'/repo').returncode!=0:
+            return name,{'error':'patch does not apply'}
+        fired={}
         for p in props:
-            r=subprocess.run(['./check',p],cwd='/verif',capture_output=True,text=True,env=dict(os.environ,VERIF_NOEVIDENCE='1'))
+            r=subprocess.run(['/verif/bin/govc','-repo',T+'/repo','-specs','/verif/specs','-prop',p,'-tier','quick','-replaydir',T+'/replay'],cwd='/verif',capture_output=True,text=True,env=env)
             obs=sorted(set(l.split('replay=')[1].split()[0].split('/')[-1][:-5] for l in r.stdout.splitlines() if l.startswith('VIOLATION')))
             und=[l for l in r.stdout.splitlines() if l.startswith('UNDECIDED')]
             if r.returncode!=0: fired[p]={'exit':r.returncode,'obligations':obs[:6],'undecided':und[:2]}
+        return name,fired
     finally:
-        subprocess.run(['git','-C','/repo','checkout','--','.'])
-    res[name]=fired
-    meta=json.load(open(d+'meta.json'))
-    own=meta['property']
-    print(name, 'own property', own, '->', 'DETECTED' if fired.get(own,{}).get('exit')==1 else ('undecided' if fired.get(own,{}).get('exit')==2 else 'missed'), '| all:', {k:v['exit'] for k,v in fired.items()})
-    meta['detected_by']={k:v for k,v in fired.items()}
-    json.dump(meta,open(d+'meta.json','w'),indent=1)
-json.dump(res,open('/verif/seeded/RESULTS.json','w'),indent=1)
+        shutil.rmtree(T,ignore_errors=True)
+dirs=[d for d in sorted(glob.glob('/verif/seeded/*/')) if not only or os.path.basename(d.rstrip('/')) in only.split(',')]
+res={}
+try: res=json.load(open('/verif/seeded/RESULTS.json'))
+except Exception: pass
+with ThreadPoolExecutor(max_workers=int(os.environ.get('JOBS','3'))) as ex:
+    for name,fired in ex.map(one,dirs):
+        res[name]=fired
+        d='/verif/seeded/'+name+'/'
+        meta=json.load(open(d+'meta.json'))
+        own=meta['property']
+        if 'error' in fired:
+            print(name,'ERROR',fired['error']); continue
+        print(name, 'own property', own, '->', 'DETECTED' if fired.get(own,{}).get('exit')==1 else ('undecided' if fired.get(own,{}).get('exit')==2 else 'missed'), '| all:', {k:v['exit'] for k,v in fired.items()},flush=True)
+        meta['detected_by']={k:v for k,v in fired.items()}
+        json.dump(meta,open(d+'meta.json','w'),indent=1)
+json.dump(res,open('/verif/seeded/RESULTS.json','w'),indent=1,sort_keys=True)
